@@ -251,8 +251,25 @@ def enclosingRectangle (m : SMat) : Option (List Nat) :=
     let t := minL ys y; let b := maxL ys y
     some [l, t, r - l + 1, b - t + 1]
 
-def topLeftOnBit (m : SMat) : Option (List Nat) := (onCells m).head?.map (fun (x, y) => [x, y])
-def bottomRightOnBit (m : SMat) : Option (List Nat) := (onCells m).getLast?.map (fun (x, y) => [x, y])
+/-- first set cell in row-major order, rows numbered from `y` -/
+def firstOn : List (List Bool) → Nat → Option (List Nat)
+  | [], _ => none
+  | r :: rs, y =>
+    let x := r.findIdx (fun b => b)
+    if x < r.length then some [x, y] else firstOn rs (y + 1)
+
+/-- last set cell in row-major order, rows numbered from `y` -/
+def lastOn : List (List Bool) → Nat → Option (List Nat)
+  | [], _ => none
+  | r :: rs, y =>
+    match lastOn rs (y + 1) with
+    | some p => some p
+    | none =>
+      let k := r.reverse.findIdx (fun b => b)
+      if k < r.length then some [r.length - 1 - k, y] else none
+
+def topLeftOnBit (m : SMat) : Option (List Nat) := firstOn m.rows 0
+def bottomRightOnBit (m : SMat) : Option (List Nat) := lastOn m.rows 0
 
 /-- `ToStringWithLineSeparator` -/
 def toStr (m : SMat) (set unset sep : List Nat) : List Nat :=
@@ -727,12 +744,16 @@ def getBottomRightOnBit (m : WMat) : Res (Option (List Nat)) :=
     let x := (bitsOffset % m.rowSize) * 32
     .ok (some [x + highBit theBits, y])
 
-/-- `ToStringWithLineSeparator` (every cell through `Get`) -/
+/-- one row of `ToStringWithLineSeparator` (every cell through `Get`), prepended reversed to `acc` -/
+def toStrRow (m : WMat) (set unset : List Nat) (y : Nat) (acc : List Nat) : Res (List Nat) :=
+  (List.range m.width).foldlM (fun acc x => do
+    let b ← m.get x y
+    pure ((if b then set else unset).reverse ++ acc)) acc
+
+/-- `ToStringWithLineSeparator` -/
 def toStr (m : WMat) (set unset sep : List Nat) : Res (List Nat) :=
   (List.range m.height).foldlM (fun acc y => do
-    let row ← (List.range m.width).foldlM (fun acc x => do
-      let b ← m.get x y
-      pure ((if b then set else unset).reverse ++ acc)) acc
+    let row ← m.toStrRow set unset y acc
     pure (sep.reverse ++ row)) [] |>.map List.reverse
 
 /-- `At(x, y)` of the image view: `Gray{0}` for a set cell, `Gray{255}` otherwise -/
